@@ -188,7 +188,7 @@ def run(ctx, build):
     for ft in (('fat16', 'fat12', 'fat32') if ctx.thorough else ('fat16', 'fat12')):
         g = fatimg.Geometry(ft, 160, spc=1, bps=512, nfats=2, root_entries=128, fsinfo=True, type_string=True)
         for label, ops in c04.scripts(g.cs):
-            if label in ('dot-components', 'many-names-sharing-six-alias-characters') or (not ctx.thorough and label != 'first-cluster-reused-after-rmdir'):
+            if label in ('dot-components', 'many-names-sharing-six-alias-characters') or (not ctx.thorough and label not in ('first-cluster-reused-after-rmdir', 'alias-candidate-equals-an-upper-cased-long-name')):
                 continue
             b = fatimg.Builder(g, rng)
             buf = bytearray(b'\xA5' * GUARD) + b.img + bytearray(b'\x5A' * GUARD)
@@ -261,7 +261,7 @@ def run(ctx, build):
     for ft, extra, fsinfo in combos:
         for label, mkop, scalable in c10.CASES:
             for free in ((0, 1, 2) if scalable else (0, 1)):
-                g, b, t = c10.make(rng, ft, free, extra, fsinfo, 32, label in ('create-in-full-subdir', 'rename-into-full-subdir'))
+                g, b, t = c10.make(rng, ft, free, extra, fsinfo, 32, c10.SUBDIR_FILL.get(label, False))
                 op = mkop(g.cs, 3 if scalable else 0)
                 buf = bytearray(b'\xA5' * GUARD) + b.img + bytearray(b'\x5A' * GUARD)
                 tr = fattrace.Tracer(buf, slice(GUARD, len(buf) - GUARD))
